@@ -25,6 +25,8 @@ ASSUMPTIONS = ['expected code = byte concatenation of the spliced lines (an incl
                'and the PICO-8 editor']
 BOUNDS = {'quick': {'all_kinds_lines': 2, 'nonpng_lines': 3}, 'thorough': {'all_kinds_lines': 3, 'nonpng_lines': 4}}
 
+# (a symbolic link inside the cart's directory to a file kept elsewhere is made by setup_dir: 'lnk.lua')
+LINKED_LUA = b'linked=7\nlk=8\n'
 LUA_FILES = {
     'inc.lua': b'la=1\nlb=2\n',
     'incn.lua': b'lc=3',
@@ -75,7 +77,7 @@ def tabs_of(code_lines):
 
 def line_kinds():
     kinds = [('plain', b'a=1\n'), ('plain', b'b=2 -- #include inc.lua\n')]
-    kinds += [('lua', 'inc.lua'), ('lua', 'incn.lua'), ('lua', 'sub/s.lua'), ('lua', 'nest.lua')]
+    kinds += [('lua', 'inc.lua'), ('lua', 'incn.lua'), ('lua', 'sub/s.lua'), ('lua', 'nest.lua'), ('lua', 'lnk.lua')]
     kinds += [('p8', 'inc0', None), ('p8', 'inc2', None), ('p8', 'inc3e', None)]
     kinds += [('p8', 'inc2', n) for n in range(0, 5)]
     kinds += [('p8', 'inc0', n) for n in range(0, 2)]
@@ -123,7 +125,7 @@ def expected_lines(kind):
     if kind[0] == 'missing':
         return None, False
     if kind[0] == 'lua':
-        data = LUA_FILES[kind[1]]
+        data = LINKED_LUA if kind[1] == 'lnk.lua' else LUA_FILES[kind[1]]
         return [data], False
     code = CART_CODE[kind[1]]
     if kind[2] is None:
@@ -161,6 +163,10 @@ def setup_dir(d=None):
     os.makedirs(os.path.join(d, 'sub'))
     for name, data in LUA_FILES.items():
         open(os.path.join(d, name), 'wb').write(data)
+    store = tempfile.mkdtemp(prefix='c20store_')
+    open(os.path.join(store, 'real.lua'), 'wb').write(LINKED_LUA)
+    if not os.path.lexists(os.path.join(d, 'lnk.lua')):
+        os.symlink(os.path.join(store, 'real.lua'), os.path.join(d, 'lnk.lua'))
     for name, code in CART_CODE.items():
         open(os.path.join(d, name + '.p8'), 'wb').write(p8_text(code))
         open(os.path.join(d, name + '.p8.png'), 'wb').write(png_bytes(code))
@@ -175,12 +181,17 @@ def kind_class(kind):
     return kind[0] if kind[0] != 'lua' else 'lua:' + kind[1]
 
 
-PATH_SPELLINGS = ['rel-dir', 'dot', 'bare', 'dotdot', 'updown', 'abs-dotdot', 'double-slash']
+PATH_SPELLINGS = ['rel-dir', 'dot', 'bare', 'dotdot', 'updown', 'abs-dotdot', 'double-slash', 'symlink-dir', 'symlink-dir-rel']
 
 
 def spelled_path(d, how):
     """(working directory, path argument) for the cart d/main.p8 named in another way."""
     parent, base = os.path.dirname(d), os.path.basename(d)
+    if how.startswith('symlink-dir'):
+        link = os.path.join(parent, 'lnk_' + base)
+        if not os.path.islink(link):
+            os.symlink(d, link)
+        return (None, os.path.join(link, 'main.p8')) if how == 'symlink-dir' else (parent, 'lnk_' + base + '/main.p8')
     return {'rel-dir': (parent, os.path.join(base, 'main.p8')),
             'dot': (d, './main.p8'),
             'bare': (d, 'main.p8'),
